@@ -148,11 +148,32 @@ class Gen:
         return self._need(self.it.module("vyxal.elements"), "modifiers")
 
 
+def table_bindings(repo: Repo, name: str):
+    """value nodes of every top-level binding of `name` in elements.py"""
+    out = []
+    for node in repo.mod("elements").tree.body:
+        if isinstance(node, ast.Assign) and any(
+                isinstance(t, ast.Name) and t.id == name
+                for t in node.targets):
+            out.append(node.value)
+        elif isinstance(node, ast.AnnAssign) and isinstance(
+                node.target, ast.Name) and node.target.id == name \
+                and node.value is not None:
+            out.append(node.value)
+        elif isinstance(node, ast.AugAssign) and isinstance(
+                node.target, ast.Name) and node.target.id == name:
+            out.append(node.value)
+    return out
+
+
 def table_dict_node(repo: Repo, name: str) -> ast.Dict:
-    node = repo.mod("elements").top_assign(name)
-    if not isinstance(node, ast.Dict):
+    """the dict literal the table is written as (a later re-binding of the
+    name - wrapping it, merging into it - is C20's business to report; the
+    entries analysed are the literal's)"""
+    lits = [n for n in table_bindings(repo, name) if isinstance(n, ast.Dict)]
+    if not lits:
         raise AnalysisError(f"elements.{name} is no longer a dict literal")
-    return node
+    return lits[0]
 
 
 def table_keys_with_nodes(repo: Repo, name: str):
